@@ -12,7 +12,7 @@ if r.get("confirmed"):
     done(**r)
 try:
     from replay import tofu_bank
-    r2 = tofu_bank.bank("C03")
+    r2 = tofu_bank.bank("C03", seed=int(p.get("seed", 0) or 0), deep=bool(p.get("deep")))
     if r2.get("confirmed"):
         done(**r2)
     r["tried"] = r.get("tried", 0) + r2.get("tried", 0)
